@@ -92,7 +92,7 @@ Section L.
   Notation cfg_items := (cfg_items F lvalidate lto_python ldefault lcallable lflag vrun).
   Notation same_slot := (same_slot F).
   Notation valid_slot := (valid_slot F lvalidate lflag vrun).
-  Notation normal_slot := (normal_slot F lvalidate lflag vrun).
+  Notation normal_slot := (normal_slot F lvalidate).
   Notation tidy := (tidy F).
 
   (* ---------------------------------------------------------------------------------------- *)
@@ -277,6 +277,20 @@ Section L.
   Lemma flat_map_nil : forall {A B} (f : A -> list B) l, (forall a, In a l -> f a = []) -> flat_map f l = [].
   Proof. induction l as [|a l IH]; intro H; [reflexivity|]. cbn [flat_map]. rewrite H by (left; reflexivity). apply IH. intros; apply H; right; assumption. Qed.
 
+  Notation items_errs := (items_errs F lvalidate lflag vrun).
+  Lemma items_errs_nil_of : forall vs fs l,
+    (forall it, In it l -> forall q, validate_errs (NSub false vs fs) q (VCfg it) = []) -> forall pre i, items_errs vs fs pre l i = [].
+  Proof.
+    intros vs fs. induction l as [|it l IH]; intros H pre i; [reflexivity|]. cbn [ConfigLemmas.items_errs].
+    rewrite (H it (or_introl eq_refl)). apply IH. intros; apply H; right; assumption.
+  Qed.
+  Lemma items_errs_nil_in : forall vs fs pre l i, items_errs vs fs pre l i = [] ->
+    forall it, In it l -> exists j, validate_errs (NSub false vs fs) (path_index pre j) (VCfg it) = [].
+  Proof.
+    intros vs fs pre. induction l as [|x l IH]; intros i H it Hin; [destruct Hin|]. cbn [ConfigLemmas.items_errs] in H.
+    apply app_eq_nil in H. destruct H as [H1 H2]. destruct Hin as [<-|Hin]; [exists i; exact H1 | eapply IH; eauto].
+  Qed.
+
   Lemma valid_validates_n : forall n dyn vs fs, (fsize F fs < n)%nat -> forall c, valid_cfg dyn vs fs c ->
     forall p, validate_errs (NSub dyn vs fs) p (VCfg c) = [].
   Proof.
@@ -295,8 +309,12 @@ Section L.
       rewrite (IH d1 v1 f1); [reflexivity | rewrite nsize_sub in Hsz; lia | exact Hf].
     - destruct v' as [x| |l]; try (destruct Hf; fail).
       + destruct x; try (destruct Hf; fail). cbn [Roundtrip.valid_slot] in Hf. subst req. reflexivity.
-      + apply valid_list_unfold in Hf. destruct Hf as [Hreq _]. destruct req; [|reflexivity].
-        destruct l; [exfalso; apply Hreq; reflexivity | reflexivity].
+      + apply valid_list_unfold in Hf. destruct Hf as [Hreq Hl].
+        assert (Hn0 : req && is_nil l = false).
+        { destruct req; [|reflexivity]. destruct l; [exfalso; apply Hreq; reflexivity | reflexivity]. }
+        rewrite Hn0. rewrite validate_errs_list. rewrite items_errs_nil_of; [reflexivity|].
+        intros it Hit q. rewrite Forall_forall in Hl. apply (IH false v1 f1); [|apply Hl; exact Hit].
+        change (nsize F (NCfgList req v1 f1)) with (nsize F (NSub false v1 f1)) in Hsz. rewrite nsize_sub in Hsz. lia.
   Qed.
 
   Lemma valid_validates : forall dyn vs fs c, valid_cfg dyn vs fs c -> forall p, validate_errs (NSub dyn vs fs) p (VCfg c) = [].
@@ -602,17 +620,14 @@ Section L.
   Qed.
 
   Lemma normal_list_unfold : forall req vs fs l,
-    normal_slot (NCfgList req vs fs) (VList l) <->
-    Forall (fun it => normal_cfg false fs it /\ validate_errs (NSub false vs fs) [] (VCfg it) = []) l.
+    normal_slot (NCfgList req vs fs) (VList l) <-> Forall (normal_cfg false fs) l.
   Proof.
     intros req vs fs. induction l as [|it l IH]; [split; intro; [constructor | exact I]|]. split.
-    - intro H. change ((normal_slot (NSub false vs fs) (VCfg it) /\ validate_errs (NSub false vs fs) [] (VCfg it) = [])
-                       /\ normal_slot (NCfgList req vs fs) (VList l)) in H.
-      destruct H as [[H1 H2] H3]. constructor; [split; [apply normal_sub_unfold in H1; exact H1 | exact H2] | apply IH; exact H3].
-    - intro H. inversion H as [|? ? [H1 H2] H3]; subst.
-      change ((normal_slot (NSub false vs fs) (VCfg it) /\ validate_errs (NSub false vs fs) [] (VCfg it) = [])
-              /\ normal_slot (NCfgList req vs fs) (VList l)).
-      split; [split; [apply (proj2 (normal_sub_unfold _ _ _ _)); exact H1 | exact H2] | apply IH; exact H3].
+    - intro H. change (normal_slot (NSub false vs fs) (VCfg it) /\ normal_slot (NCfgList req vs fs) (VList l)) in H.
+      destruct H as [H1 H3]. constructor; [apply normal_sub_unfold in H1; exact H1 | apply IH; exact H3].
+    - intro H. inversion H as [|? ? H1 H3]; subst.
+      change (normal_slot (NSub false vs fs) (VCfg it) /\ normal_slot (NCfgList req vs fs) (VList l)).
+      split; [apply (proj2 (normal_sub_unfold _ _ _ _)); exact H1 | apply IH; exact H3].
   Qed.
 
   Notation has_disabled := (has_disabled F lflag).
@@ -643,7 +658,7 @@ Section L.
     induction n as [|n IH]; intros dyn vs fs Hsz c p Hn Hve Hd; [lia|].
     destruct c as [i d df dy]. rewrite dis_sub_unfold in Hd. apply orb_false_elim in Hd. destruct Hd as [Hen Hex].
     apply negb_false_iff in Hen. cbn [c_data] in Hen.
-    destruct (validated_means F lvalidate lflag vrun dyn vs fs p i d df dy Hve Hen) as (M1 & M2 & M3 & M4).
+    destruct (validated_means F lvalidate lflag vrun dyn vs fs p i d df dy Hve Hen) as (M1 & M2 & Mi & M3 & M4).
     destruct Hn as (Ht & Hnd & Hf).
     split; [exact Ht | split; [exact Hnd | split; [|intros _; exact M4]]].
     apply Forall_forall. intros [k nd] Hin. rewrite Forall_forall in Hf. specialize (Hf _ Hin).
@@ -662,17 +677,19 @@ Section L.
       + apply (proj2 (valid_list_unfold _ _ _ _)). split.
         * intros Hr Hl. subst. destruct (M2 k true v1 f1 Hin eq_refl) as [_ H2]. apply H2. exact Hg.
         * apply normal_list_unfold in Hf. rewrite dis_list_unfold in Hdk.
-          apply Forall_forall. intros it Hit. rewrite Forall_forall in Hf. destruct (Hf _ Hit) as [Hn1 Hn2].
+          apply Forall_forall. intros it Hit. rewrite Forall_forall in Hf. pose proof (Hf _ Hit) as Hn1.
+          (* since the repair of F50: whole-configuration validation found nothing inside the items either *)
+          destruct (items_errs_nil_in _ _ _ _ _ (Mi k req v1 f1 l Hin Hg) it Hit) as [j Hn2].
           assert (Hs' : (fsize F f1 < n)%nat).
           { change (nsize F (NCfgList req v1 f1)) with (nsize F (NSub false v1 f1)) in Hs. rewrite nsize_sub in Hs. lia. }
-          apply (IH false v1 f1 Hs' it [] Hn1 Hn2).
+          apply (IH false v1 f1 Hs' it _ Hn1 Hn2).
           pose proof (existsb_false _ _ Hdk _ Hit) as Hd2. cbv beta in Hd2. rewrite dis_sub_unfold in *. exact Hd2.
   Qed.
 
   (* (4) the statement in the library's own terms: every stored value normal, the library's whole-configuration
      validation reports nothing, and no configuration at any depth has its feature flag off (the region of F36) *)
   Theorem roundtrip_partial : forall dyn vs fs c,
-    Normal F lvalidate lflag vrun dyn fs c ->
+    Normal F lvalidate dyn fs c ->
     validate_errs (NSub dyn vs fs) [] (VCfg c) = [] ->
     known_F36 F lflag fs c = false ->
     forall w w0 fresh, build_cfg w fs = (w0, fresh) ->
@@ -879,7 +896,7 @@ Definition f36_tree : pyval :=
 
 Theorem roundtrip_refuted_F36 :
   validate_errs leaf lvalidate lflag (vrun []) (NSub false [] f36_fs) [] (VCfg f36_c) = []
-  /\ Normal leaf lvalidate lflag (vrun []) false f36_fs f36_c
+  /\ Normal leaf lvalidate false f36_fs f36_c
   /\ known_F36 leaf lflag f36_fs f36_c = true
   /\ to_tree leaf lto_basic l_sensitive py_strlen None f36_fs f36_c = Ok f36_tree
   /\ snd (load_tree leaf lvalidate lto_python ldefault l_callable lflag (vrun []) f36_tree true f36_w []
@@ -891,26 +908,29 @@ Proof.
   - split; [vm_compute; reflexivity|]. split; vm_compute; reflexivity.
 Qed.
 
-(* F50: items = ListField(Schema(need = IntField(required=True))); c.items = [{"need": 1}]; reset_value(c.items[0], "need").
-   Whole-configuration validation does not look into the items of a list, so the state validates; the rendered
-   tree holds "need": null and is rejected by load_tree: "items[0].need: value is required". *)
+(* F50 (repaired): items = ListField(Schema(need = IntField(required=True))); c.items = [{"need": 1}];
+   reset_value(c.items[0], "need").  Whole-configuration validation now descends into the items of a list, so this state
+   is no longer a valid state: validate() reports "items[0].need".  (Its rendered tree is still rejected by load_tree,
+   consistently.)  Before the repair this was the witness roundtrip_refuted_stale_item. *)
 Definition f50_fs : list (str * node leaf) :=
   [(sa "items", NCfgList false [] [(sa "need", NLeaf (rt_mk (LInt None None) true PNone))])].
 Definition f50_c : cfg := Cfg 0 [(sa "items", VList [Cfg 1 [(sa "need", VLeaf PNone)] [sa "need"] []])] [] [].
 Definition f50_tree : pyval := PDict 0 [(PStr (sa "items"), PList 0 [PDict 0 [(PStr (sa "need"), PNone)]])].
 
-Theorem roundtrip_refuted_stale_item :
+Theorem stale_item_rejected :
   (* reached by public operations: constructor keyword, then reset_value on the item *)
   run_roundtrip (Some ([], false, [], f50_fs, [(sa "items", PList 0 [PDict 0 [(PStr (sa "need"), PInt 1)]])],
                        [([PItem (sa "items") 0], CReset (sa "need"))]))
     = PTuple [o_str "ok"; o_cfg' f50_c; o_res (Ok f50_tree); o_oc (OErr (EValidation (sa "items[0].need")));
               o_cfg' (snd (build_cfg leaf ldefault l_callable {| w_next := 2; w_calls := 0 |} f50_fs)); PBool false]
-  /\ validate_errs leaf lvalidate lflag (vrun []) (NSub false [] f50_fs) [] (VCfg f50_c) = []
-  /\ known_F36 leaf lflag f50_fs f50_c = false
-  /\ to_tree leaf lto_basic l_sensitive py_strlen None f50_fs f50_c = Ok f50_tree
-  /\ snd (load_tree leaf lvalidate lto_python ldefault l_callable lflag (vrun []) f50_tree true w0 []
-            (snd (build_cfg leaf ldefault l_callable w0 f50_fs)) false [] f50_fs) = OErr (EValidation (sa "items[0].need")).
-Proof. repeat split; vm_compute; reflexivity. Qed.
+  /\ validate_errs leaf lvalidate lflag (vrun []) (NSub false [] f50_fs) [] (VCfg f50_c) = [EValidation (sa "items[0].need")]
+  /\ Normal leaf lvalidate false f50_fs f50_c
+  /\ known_F36 leaf lflag f50_fs f50_c = false.
+Proof.
+  split; [vm_compute; reflexivity|]. split; [vm_compute; reflexivity|]. split; [|vm_compute; reflexivity].
+  unfold Normal. cbn. repeat split; intros; cbn in *; try solve_nodup; try contradiction; try assumption; try (left; assumption);
+    try (left; reflexivity); try (right; eexists; reflexivity).
+Qed.
 
 (* ------------------------------------------------------------------------------------------------ *)
 (* the Boolean verdict the correspondence stream compares is implied by the relation of the theorems *)
